@@ -60,11 +60,27 @@ fn kind_bit(t: TokenType) -> u32 {
 
 /// The oracle. Returns Err(description) on any violation of the property.
 pub fn check_bytes(b: &[u8]) -> Result<Stats, String> {
+    check_bytes_mode(b, "", true)
+}
+
+/// fragment contexts of the public constructor (raw-text contexts, RCDATA contexts, plaintext, an ordinary
+/// element, odd case) — the statement quantifies over every byte sequence for the tokenizer as such
+pub const CONTEXTS: &[&str] = &["script", "STYLE", "title", "textarea", "plaintext", "xmp", "iframe", "noscript", "div", "Script"];
+
+fn make(b: &[u8], context: &str, allow_cdata: bool) -> Tokenizer {
+    let mut t = if context.is_empty() { Tokenizer::new(b.to_vec()) } else { Tokenizer::new_fragment(b.to_vec(), context.to_string()) };
+    if !allow_cdata {
+        t.allow_cdata(false);
+    }
+    t
+}
+
+pub fn check_bytes_mode(b: &[u8], context: &str, allow_cdata: bool) -> Result<Stats, String> {
     let valid_utf8 = std::str::from_utf8(b).is_ok();
     let limit = b.len() + 1;
 
     // plain run: no accessor calls
-    let mut plain = Tokenizer::new(b.to_vec());
+    let mut plain = make(b, context, allow_cdata);
     let mut plain_tokens: Vec<(TokenType, Vec<u8>)> = Vec::new();
     let mut rebuilt: Vec<u8> = Vec::with_capacity(b.len());
     let mut kinds = 0u32;
@@ -115,7 +131,7 @@ pub fn check_bytes(b: &[u8]) -> Result<Stats, String> {
     }
 
     // twin run: call every accessor on every token
-    let mut twin = Tokenizer::new(b.to_vec());
+    let mut twin = make(b, context, allow_cdata);
     let mut index = 0usize;
     loop {
         let token = match twin.next() {
@@ -190,17 +206,25 @@ pub fn check_bytes(b: &[u8]) -> Result<Stats, String> {
 }
 
 fn check_and_record(b: &[u8], enumerated: bool, ctx_label: &str, report: &mut Report) {
+    check_and_record_mode(b, enumerated, ctx_label, "", true, report)
+}
+
+fn check_and_record_mode(b: &[u8], enumerated: bool, ctx_label: &str, context: &str, allow_cdata: bool, report: &mut Report) {
     report.eval();
-    match guarded(|| check_bytes(b)) {
+    if !context.is_empty() || !allow_cdata {
+        report.count("inputs_tokenised_in_a_fragment_context_or_without_cdata");
+    }
+    match guarded(|| check_bytes_mode(b, context, allow_cdata)) {
         Err(panic) => {
             report.violation(
                 "panic",
-                format!("tokenizer panicked on '{}': {}", show(b), panic),
-                json!({"bytes_hex": hex(b), "shown": show(b)}),
+                format!("tokenizer (context {context:?}, allow_cdata {allow_cdata}) panicked on '{}': {}", show(b), panic),
+                json!({"bytes_hex": hex(b), "shown": show(b), "context": context, "allow_cdata": allow_cdata}),
             );
         }
         Ok(Err(msg)) => {
-            report.violation("lossless", msg, json!({"bytes_hex": hex(b), "shown": show(b)}));
+            let msg = if context.is_empty() && allow_cdata { msg } else { format!("(context {context:?}, allow_cdata {allow_cdata}) {msg}") };
+            report.violation("lossless", msg, json!({"bytes_hex": hex(b), "shown": show(b), "context": context, "allow_cdata": allow_cdata}));
         }
         Ok(Ok(stats)) => {
             if stats.tokens >= 2 {
@@ -244,6 +268,20 @@ fn enumerate(alphabet: &[u8], prefix: &[u8], len: usize, shard: usize, jobs: usi
         }
         check_and_record(&buf, true, label, report);
         i += jobs as u64;
+    }
+}
+
+/// all strings of exactly `len` symbols, tokenised in a fragment context
+fn enumerate_mode(alphabet: &[u8], len: usize, context: &str, allow_cdata: bool, report: &mut Report) {
+    let k = alphabet.len();
+    let total = k.pow(len as u32);
+    let mut buf = vec![0u8; len];
+    for mut n in 0..total {
+        for slot in buf.iter_mut() {
+            *slot = alphabet[n % k];
+            n /= k;
+        }
+        check_and_record_mode(&buf, true, "fragment-exhaustive", context, allow_cdata, report);
     }
 }
 
@@ -372,6 +410,22 @@ pub fn run(ctx: &Ctx, _args: &Args) -> i32 {
         for _ in 0..per_shard {
             let input = random_input(&mut rng, &corpus);
             check_and_record(&input, false, "random", report);
+            if rng.chance(1, 4) {
+                let context = if rng.chance(1, 5) { "" } else { *rng.pick(CONTEXTS) };
+                let allow_cdata = !context.is_empty() && rng.coin();
+                check_and_record_mode(&input, false, "random-fragment", context, allow_cdata, report);
+            }
+        }
+        // short strings in every fragment context
+        for (ci, context) in CONTEXTS.iter().enumerate() {
+            for cdata in [true, false] {
+                if (ci * 2 + cdata as usize) % jobs != shard {
+                    continue;
+                }
+                for len in 0..=4 {
+                    enumerate_mode(ALPHABET, len, context, cdata, report);
+                }
+            }
         }
         // every corpus document and every prefix of it
         for (i, doc) in corpus.iter().enumerate() {
@@ -409,7 +463,7 @@ pub fn run(ctx: &Ctx, _args: &Args) -> i32 {
     let outcome = finish(
         ctx,
         report,
-        "inputs: exhaustive short strings over a markup alphabet, context prefixes x exhaustive suffixes, random bytes / markup pieces / mutated corpus documents, all prefixes of corpus documents; non-trivial = input producing >= 2 tokens (enumerated inputs are distinct by construction, random ones are de-duplicated by hash)",
+        "inputs: exhaustive short strings over a markup alphabet (default constructor: length <= 7/8; every fragment context of Tokenizer::new_fragment x allow_cdata on/off: length <= 4), context prefixes x exhaustive suffixes, random bytes / markup pieces / mutated corpus documents, all prefixes of corpus documents; non-trivial = input producing >= 2 tokens (enumerated inputs are distinct by construction, random ones are de-duplicated by hash)",
         &["rustc/std", "String::from_utf8 as the definition of 'valid UTF-8'"],
         started,
         1000,
@@ -419,7 +473,9 @@ pub fn run(ctx: &Ctx, _args: &Args) -> i32 {
 
 pub fn replay(_ctx: &Ctx, case: &Value) -> i32 {
     let bytes = unhex(case.get("bytes_hex").and_then(|v| v.as_str()).unwrap_or(""));
-    let failures = match guarded(|| check_bytes(&bytes)) {
+    let context = case.get("context").and_then(|v| v.as_str()).unwrap_or("").to_string();
+    let allow_cdata = case.get("allow_cdata").and_then(|v| v.as_bool()).unwrap_or(true);
+    let failures = match guarded(|| check_bytes_mode(&bytes, &context, allow_cdata)) {
         Err(p) => vec![format!("panic: {p}")],
         Ok(Err(m)) => vec![m],
         Ok(Ok(_)) => vec![],
